@@ -47,9 +47,12 @@ SPEC = dict(
          'self-disconnect, disconnect-connect-... sequences, destroy own listener, destroy the emitting emitter, recursive emission, duplicate connect); every slot '
          'invocation draws nested actions from the same seeded stream (emission depth <= 4), swarm-weighted per case. distinct = hash of the executed action tree; '
          'non-trivial = at least 2 slot invocations and at least 1 action executed inside a slot. Compared: every slot entry against the next invocation predicted by '
-         'a lockstep model of connection records (exact listener, slot, argument, order), the end of every emission against "nothing left to invoke", and after every '
-         'top-level action (no emission in progress) a walk of Emitter::signalData (per signal, as a sequence) / Listener::slotData (per emitter AND signal AND slot, as counts) against the live '
-         'connections of the model. Scripted scenarios (three historic ones and three twin-signal ones: slot connected to sigK then sigKb of one emitter, the later connection disconnected at top level / '
+         'a lockstep model of connection records (exact listener, slot, argument, order), the end of every emission against "nothing left to invoke"; before the remaining objects of a case are '
+         'destroyed (in random order) every signal that ever had a connection is emitted once more at top level without nested actions (final sweep: a record kept, lost or reordered against the '
+         'model is a wrong / missing / misordered invocation there at the latest). Normal build flavour: after every top-level action (no emission in progress) a container-agnostic walk of '
+         'Emitter::signalData (per signal, the records not marked disconnected as a sequence) / Listener::slotData (per emitter AND signal AND slot, as counts) against the live connections of the '
+         'model. Fallback flavour (-DVERIF_NO_PRIVATE, used automatically when the harness no longer compiles against the private members): no walk; the bookkeeping clause is then checked only '
+         'indirectly through later emissions, the final sweep, the destructions and ASan (observed set bookkeeping_clause, counter quiescent_points_bookkeeping_checked_only_indirectly). Scripted scenarios (three historic ones and three twin-signal ones: slot connected to sigK then sigKb of one emitter, the later connection disconnected at top level / '
          'from its own slot, then listener or emitter destroyed) run for every arity in every shard. '
          '(exhaustive-q/-t) case = one of ALL 2*8^M*10^N programs (quick M=2,N=3; thorough M=3,N=4) over E0, L0, L1, one signal (0 arguments), one slot each; '
          '(exhaustive-arities-q/-t) the same program space (quick M=2,N=3; thorough M=3,N=3) enumerated completely for EACH of the nine signal arities 0..8: prefix (connect L0, [L0 again,] L1), emit, '
@@ -61,8 +64,13 @@ SPEC = dict(
                  'emission of that signal that is nested in it, even if an older duplicate was disconnected meanwhile',
                  'disconnect() of a pair that is not connected is a no-op',
                  'listener-side bookkeeping is compared as a multiset of (signal, slot) pairs per emitter (its order is not observable through the API); an empty slotData entry for a destroyed emitter describes no connection',
+                 'emitter-side bookkeeping: the records not marked disconnected must be exactly the live connections in connection order; records marked disconnected (tombstones awaiting the deferred '
+                 'clean-up) describe no connection wherever they are met, a dirty flag still set at a quiescent point and a record still "connecting" while that flag is set are pending clean-up (counted, '
+                 'no verdict): the moment of the deferred clean-up and the container types are not observable. Kept as design invariants: no activation registered outside emissions, list size = linked items, '
+                 'no "connecting" record with a clear dirty flag outside emissions',
+                 'in the fallback flavour (no private access) only the floors on ops and cases apply; all model / ASan oracles are the same and the same programs run (same seeds, same fingerprints)',
                  'the emitter class of the harness is not polymorphic: Emitter::emit calls slots through a pointer cast to the emitter class (type erasure), which -fsanitize=vptr would flag for any polymorphic emitter'],
-    technique='lockstep reference model of connection records + invocation log + access-override structure walk at quiescent points, under ASan/UBSan',
+    technique='lockstep reference model of connection records + invocation log + final sweep emission + access-override structure walk at quiescent points (normal flavour), under ASan/UBSan',
     exhaustive={Q: False, T: False},   # the exhaustive-* jobs enumerate their small-scope program space completely; the check as a whole is exploration
     jobs=[
         job('exhaustive-q', 'h_callback', 'exh23', cases={Q: -1, T: 0}, procs=16),     # 2 * 8^2 * 10^3 = 128,000 programs
@@ -73,13 +81,13 @@ SPEC = dict(
             probes=['Callback.disconnect/signal-emitting/bookkeeping/emitter-side-stale-record',
                     'Listener.destroy/connected-signal-emitting/bookkeeping/emitter-side-stale-record']),
     ],
-    floors={Q: dict(slot_invocations=2000000, invocations_matched=2000000, nested_actions=1500000, quiescent_walks=5000000, records_compared_by_walks=20000000,
+    floors={Q: dict(ops=20000000, cases=1600000, final_sweep_emissions=1000000, quiescent_points=5000000, slot_invocations=2000000, invocations_matched=2000000, nested_actions=1500000, quiescent_walks=5000000, records_compared_by_walks=20000000,
                     exhaustive_programs=1280000, exhaustive_programs_all_arities=1152000, op_emit_recursive_same_signal=200000, op_destroy_emitter_while_emitting=100000, op_destroy_emitter_with_nested_emissions=20000,
                     op_destroy_listener_with_pending_slots=60000, op_disconnect_behind_dead_record_of_same_slot=100000, op_destroy_listener_behind_other_record_of_same_slot=60000,
                     dcd_sequences_signal_emitting=50000, pending_slot_dropped_before_its_turn=150000, passed_over_connected_during_emission=400000, max_emission_depth=4,
                     **{'set:action_at_depth': 80}, **_twin_floors(1),
                     **_arity_floors(emit=350000, connect=400000, disconnect=170000, invoked=450000, conn_emitting=70000, disc_emitting=65000, passed_over=70000, dropped=45000, ended=30000, recursive=40000)),
-            T: dict(slot_invocations=45000000, invocations_matched=45000000, nested_actions=40000000, quiescent_walks=120000000, records_compared_by_walks=450000000,
+            T: dict(ops=350000000, cases=25000000, final_sweep_emissions=12000000, quiescent_points=120000000, slot_invocations=45000000, invocations_matched=45000000, nested_actions=40000000, quiescent_walks=120000000, records_compared_by_walks=450000000,
                     exhaustive_programs=19456000, exhaustive_programs_all_arities=9216000, op_emit_recursive_same_signal=5000000, op_destroy_emitter_while_emitting=3000000, op_destroy_emitter_with_nested_emissions=500000,
                     op_destroy_listener_with_pending_slots=2500000, op_disconnect_behind_dead_record_of_same_slot=1800000, op_destroy_listener_behind_other_record_of_same_slot=1800000,
                     dcd_sequences_signal_emitting=800000, pending_slot_dropped_before_its_turn=5000000, passed_over_connected_during_emission=9000000, max_emission_depth=4,
